@@ -38,9 +38,20 @@ def may_overlap(st, k1, w1, k2, w2, cache=None):
     if isinstance(w1, int) and isinstance(w2, int):
         if cache is None:
             cache = {}
-        lo1, hi1 = _sym_range(st, s1, cache)
-        lo2, hi2 = _sym_range(st, s2, cache)
-        if hi1 + c1 + w1 <= lo2 + c2 or hi2 + c2 + w2 <= lo1 + c1:
+        r = cache.get((s1, s2))
+        if r is None:
+            # range of the symbolic part of (k2 - k1); shared atoms cancel
+            d = dict(s2)
+            for a, c in s1:
+                v = d.get(a, 0) - c
+                if v:
+                    d[a] = v
+                else:
+                    d.pop(a, None)
+            r = cache[(s1, s2)] = _sym_range(st, tuple(d.items()), {})
+        lo, hi = r
+        # k2 - k1 = sym + (c2 - c1)
+        if lo + (c2 - c1) >= w1 or hi + (c2 - c1) <= -w2:
             return False
         if not st.facts:
             return True
